@@ -106,12 +106,12 @@ def _parse(res):
         res.deadlock = True
     if re.search(r"Postcondition .* is false|The postcondition .* is violated|post condition.*false", out, re.I):
         res.postcondition_false = True
-    # PrintT tuples: gather text from '<<' with balanced brackets (may span lines)
-    i = 0
-    while True:
-        j = out.find('<<"', i)
-        if j < 0:
-            break
+    # PrintT tuples: TLC pretty-prints long tuples over several lines (`<< "REJECT",\n   "id", ... >>`), so
+    # find every `<<` that is followed (after optional whitespace) by a string and match brackets from there.
+    for m in re.finditer(r'<<\s*"', out):
+        j = m.start()
+        if j > 0 and out[j - 1] == "<":      # inner part of a longer run of '<'
+            continue
         depth, k = 0, j
         while k < len(out):
             if out.startswith("<<", k):
@@ -131,10 +131,11 @@ def _parse(res):
             k += 1
         chunk = out[j:k]
         try:
-            res.printed.append(parse_tla_value(chunk))
+            v = parse_tla_value(chunk)
         except ValueError:
-            pass
-        i = k
+            continue
+        if isinstance(v, list) and v and isinstance(v[0], str):
+            res.printed.append(v)
     # coverage: lines like "<Sweep line 10, col 1 to line 12, col 20 of module Driver>: 12:40"
     for m in re.finditer(r"^<(\w+) line \d+, col \d+ to line \d+, col \d+ of module (\w+)>: (\d+):(\d+)", out, re.M):
         name = m.group(1)
